@@ -95,8 +95,21 @@ class DataboxWorld(World):
         weights = {k: (0 if k in disabled else OP_WEIGHTS[k] * rng.choice([1, 1, 2, 3])) for k in kinds}
         faulty = rng.random() < 0.45
         enabled = [k for k in FAULT_KINDS if rng.random() < 0.5] if faulty else []
+        mode = "sweep" if rng.random() < 0.10 else "random"
+        if mode == "sweep":
+            # single-fault sweep: one sampled workload (a databox and one export), re-run once per raw I/O index
+            # with exactly one fault there, each followed by a read of the result and a clean re-export
+            return {
+                "world": cls.NAME, "mode": "sweep", "freqs": freqs, "bases": {f: BASES[f](rng) for f in freqs},
+                "boxes": 2, "actors": 1, "paths": 1, "steps": 400, "nan_density": rng.choice([0.0, 0.2, 0.5]),
+                "max_len": rng.choice([2, 5]), "max_nv": rng.choice([1, 2, 3]), "max_items": rng.choice([2, 4]),
+                "fault_kinds": list(FAULT_KINDS), "p_fault": 0.0, "p_short": 0.0, "buffer": rng.choice([16, 64]),
+                "newline_desc": rng.random() < 0.3, "weights": weights,
+                "sweep": {"side": rng.choice(["write", "write", "read"]), "target_calls": rng.choice([8, 16, 30]),
+                          "description_row": rng.random() < 0.5},
+            }
         return {
-            "world": cls.NAME,
+            "world": cls.NAME, "mode": "random",
             "freqs": freqs,
             "bases": {f: BASES[f](rng) for f in freqs},
             "boxes": rng.randint(2, 4),
@@ -264,6 +277,11 @@ class DataboxWorld(World):
     def gen_step(self, st):
         rng, val, sched, flt = st.get("ops"), st.get("values"), st.get("sched"), st.get("faults")
         cfg = self.cfg
+        if cfg.get("mode") == "sweep":
+            step = self._gen_sweep(rng, val, flt)
+            if step is not None:
+                step.setdefault("actor", "a0")
+            return step
         actor = f"a{sched.randrange(cfg['actors'])}"
         own = [h for h in self.boxes if self.owner[h] == actor]
         if not own or len(self.boxes) < 2:
@@ -279,6 +297,105 @@ class DataboxWorld(World):
                 step["actor"] = actor
                 return step
         return self._gen_new_box(actor, rng, val, flt)
+
+    # -- single-fault sweep -----------------------------------------------------------------------------
+    def _gen_sweep(self, rng, val, flt):
+        """
+        State machine: build a box; export it fault-free (records the number of raw calls); then for every raw
+        call index k: export with exactly one fault at k, read the path, re-export cleanly, read again.
+        """
+        sw = self.cfg["sweep"]
+        stt = getattr(self, "_sweep_state", None)
+        path = "/sim/p0.csv"
+        clean_plan = {"buffer": self.cfg["buffer"], "short_write": None, "short_read": None, "faults": []}
+
+        def export_step(plan):
+            box = sorted(self.boxes)[0]
+            return {"op": "export", "args": {"box": box, "path": path, "names": None, "span": None,
+                                             "description_row": sw["description_row"], "round": 12, "nan_str": "", "plan": plan}}
+
+        def import_step(plan):
+            return {"op": "import", "out": [self._name()], "args": {"path": path, "description_row": sw["description_row"], "plan": plan}}
+        if stt is None:
+            self._sweep_state = stt = {"phase": "box", "k": 0, "kinds": None, "items": None, "sub": 0}
+        # keep exactly one source box; imported boxes are dropped right away
+        extra = [b for b in sorted(self.boxes) if b != stt.get("box")]
+        if stt["phase"] != "box" and stt.get("box") in self.boxes and extra:
+            return {"op": "drop_box", "args": {"box": extra[0]}}
+        if stt["phase"] == "box" or stt.get("box") not in self.boxes:
+            step = self._gen_new_box("a0", rng, val, flt) if stt["items"] is None else \
+                {"op": "new_box", "actor": "a0", "out": [self._name()], "args": {"items": stt["items"]}}
+            stt["items"] = step["args"]["items"]
+            stt["box"] = step["out"][0]
+            if stt["phase"] == "box":
+                stt["phase"] = "probe"
+            return step
+        if stt["phase"] == "probe":
+            stt["phase"] = "probe_read"
+            return export_step(clean_plan)
+        if stt["phase"] == "probe_read":
+            # choose the chunk so that the export makes about target_calls raw writes / reads
+            size = max(len(self.fs.files.get(path, b"")), 1)
+            chunk = max(1, -(-size // sw["target_calls"]))
+            stt["chunk"] = chunk
+            stt["phase"] = "count"
+            plan = dict(clean_plan)
+            if sw["side"] == "write":
+                plan["short_write"] = chunk
+                return export_step(plan)
+            plan["short_read"] = chunk
+            return import_step(plan)
+        if stt["phase"] == "count":
+            n = self._last_counts["write" if sw["side"] == "write" else "read"]
+            stt["n"] = min(n, 80)
+            stt["phase"] = "sweep"
+            stt["k"] = 0
+            stt["sub"] = 0
+            self.probes["sweep_workloads"] += 1
+        if stt["phase"] == "sweep":
+            if stt["k"] >= stt["n"]:
+                stt["phase"] = "extra"
+                stt["k"] = 0
+            else:
+                k, sub = stt["k"], stt["sub"]
+                if sw["side"] == "write":
+                    kinds = ["write_enospc", "write_eio", "crash"]
+                    if sub == 0:
+                        kind = kinds[k % 3] if k % 7 else "crash"
+                        stt["sub"] = 1
+                        keep = [0, 1, 5, 100000][k % 4]
+                        self.probes["sweep_fault_points"] += 1
+                        return export_step({"buffer": self.cfg["buffer"], "short_write": stt["chunk"], "short_read": None,
+                                            "faults": [{"kind": kind, "at": k, "keep": keep}]})
+                    if sub == 1:
+                        stt["sub"] = 2
+                        return import_step(clean_plan)
+                    if sub == 2:
+                        stt["sub"] = 3
+                        return export_step(clean_plan)
+                    stt["sub"] = 0
+                    stt["k"] += 1
+                    return import_step(clean_plan)
+                else:
+                    stt["k"] += 1
+                    self.probes["sweep_fault_points"] += 1
+                    return import_step({"buffer": self.cfg["buffer"], "short_write": None, "short_read": stt["chunk"],
+                                        "faults": [{"kind": "read_eio", "at": k}]})
+        if stt["phase"] == "extra":
+            # faults that are not indexed by the data calls: every open of the operation, and the close
+            seq = [("open_enoent", 0), ("open_eacces", 0), ("open_emfile", 0), ("open_enospc", 0), ("close_eio", 0),
+                   ("open_eacces", 1), ("open_emfile", 2), ("close_eio", 1)]
+            if stt["k"] >= 2 * len(seq):
+                return None
+            i, second = divmod(stt["k"], 2)
+            stt["k"] += 1
+            if second:
+                return import_step(clean_plan)
+            kind, at = seq[i]
+            plan = {"buffer": self.cfg["buffer"], "short_write": None, "short_read": None, "faults": [{"kind": kind, "at": at}]}
+            self.probes["sweep_fault_points"] += 1
+            return export_step(plan) if sw["side"] == "write" and at == 0 else import_step(plan)
+        return None
 
     def _own_box(self, rng, actor):
         own = sorted(h for h in self.boxes if self.owner[h] == actor)
@@ -714,6 +831,7 @@ class DataboxWorld(World):
                 strip_traceback(e)
                 r, status = e, "raised"
         finally:
+            self._last_counts = dict(self.fs.counts)
             fired = self.fs.end_step()
         for k in fired:
             self.faults_fired[k] += 1
